@@ -291,7 +291,7 @@ impl Property for C15 {
         run_history(h, false, &mut v)?;
         match h.fam {
             FamId::K256 => transitivity::<k256::ecdsa::SigningKey>(&v)?,
-            FamId::Libsecp => transitivity::<secp256k1::SecretKey>(&v)?,
+            FamId::Libsecp => transitivity::<crate::keys::LibsecpKey>(&v)?,
             FamId::Ed => transitivity::<ed25519_dalek::SigningKey>(&v)?,
             FamId::CombinedSecp | FamId::CombinedEd => transitivity::<enr::CombinedKey>(&v)?,
             FamId::Var | FamId::Wide => transitivity::<crate::keys::VarKey>(&v)?,
